@@ -90,7 +90,21 @@ func (w *world) play(s *vnet.Sim, k *vnet.Socket, src netip.AddrPort, emits []Em
 		case "icmp":
 			s.After(e.After, "emit-icmp", func() { s.ICMPRefuse(k) })
 		case "tcp":
-			s.After(e.After, "emit-tcp", func() { s.DeliverTCP(k, e.Data, e.Class) })
+			if len(e.Split) == 0 {
+				s.After(e.After, "emit-tcp", func() { s.DeliverTCP(k, e.Data, e.Class) })
+				break
+			}
+			rest, at := e.Data, e.After
+			for j := 0; len(rest) > 0; j++ {
+				n := len(rest)
+				if j < len(e.Split) && e.Split[j] > 0 && e.Split[j] < n {
+					n = e.Split[j]
+				}
+				seg, tag := rest[:n], e.Class+"#"+strconv.Itoa(j)
+				s.After(at, "emit-tcp-seg", func() { s.DeliverTCP(k, seg, tag) })
+				rest = rest[n:]
+				at += e.Gap
+			}
 		case "tcp-rst":
 			s.After(e.After, "emit-rst", func() { s.TCPReset(k) })
 		case "tcp-fin":
